@@ -524,6 +524,13 @@ def run(ctx):
                     if (tested & parent_locals) and side is not None and (side != (not cd.neg)):
                         guarded = True
                         err_side_ok = all(err_returned_from(ev, x) for (_, x) in flow.true_side(ev, sb, cd))
+                # the same test written as a match on the Option itself (`match parent_instructions { Some(_) => bail, None => load }`)
+                if cd.kind == "discr" and (cd.adt or "") == "core::option::Option" and cd.place is not None and \
+                        cd.place["l"] in parent_locals and "p" not in cd.place and set(taken) <= {"0", "otherwise"} and "1" not in taken:
+                    t_ = ev.term(sb)
+                    some_targets = [x for v_, x in t_["arms"] if v_ == "1"] or ([t_["otherwise"]] if not any(v_ == "1" for v_, _ in t_["arms"]) and any(v_ == "0" for v_, _ in t_["arms"]) else [])
+                    guarded = True
+                    err_side_ok = bool(some_targets) and all(err_returned_from(ev, x) for x in some_targets)
             ctx.ob("C06.I1.second-extends-is-guarded", tag + "eval_impl|load_blocks", guarded,
                    "load_blocks is not guarded by `parent_instructions.is_some()` on the variable the result is "
                    "stored in: a second {% extends %} silently replaces the first", ev.where(c.bb))
